@@ -535,7 +535,11 @@ fn typed(hist: &[T]) -> Result<String, String> {
         let first = got_msgs.iter().zip(&expected_msgs).position(|(a, b)| a != b).unwrap_or(got_msgs.len().min(expected_msgs.len()));
         return Err(format!("messages differ at message {} of {}: read {:?}, written {:?}", first, expected_msgs.len(), got_msgs.get(first).map(|m| (m.0, m.1.len(), &m.1[..m.1.len().min(12)])), expected_msgs.get(first).map(|m| (m.0, m.1.len(), &m.1[..m.1.len().min(12)]))));
     }
-    Ok(format!("typed:snaps{}:refused{}:msgs{}{}", expected.len().min(3), refused.min(2), expected_msgs.len().min(2), awkward))
+    // (the class records which kinds of refusal occurred, not their order)
+    let mut kinds: Vec<&str> = awkward.split(':').filter(|k| !k.is_empty()).collect();
+    kinds.sort();
+    kinds.dedup();
+    Ok(format!("typed:snaps{}:refused{}:msgs{}:{}", expected.len().min(3), refused.min(2), expected_msgs.len().min(2), kinds.join("+")))
 }
 
 fn typed_level(run: &Arc<Run>, depth: usize, extended: bool) {
